@@ -1527,7 +1527,12 @@ def _encode_host(host: str, validate_host: bool) -> str:
             ) from None
         return host
 
-    return _idna_encode(host)
+    host = _idna_encode(host)
+    if validate_host and (invalid := NOT_REG_NAME.search(host)):
+        # the IDNA mapping can produce delimiters (e.g. from fullwidth forms)
+        value, pos = invalid.group(), invalid.start()
+        raise ValueError(f"Host {host!r} cannot contain {value!r} (at position {pos})")
+    return host
 
 
 @rewrite_module
